@@ -208,6 +208,9 @@ int main (void)
 	  n_ops++;
 	  LIB (ent = HT_FIND (ht, &elems[e], 1));
 	  if ((*ent == (hash_table_entry_t) &elems[e]) != was) mism_i ("insert: element already present?", *ent == (hash_table_entry_t) &elems[e], was);
+	  /* the documented contract: the entry of the element, or an EMPTY entry in which it can be placed (the library's own
+	     callers test the entry for NULL to tell the two cases apart) */
+	  if (!was && *ent != NULL) mism_i ("insert: the entry reserved for an absent element is not empty", 1, 0);
 	  *ent = (hash_table_entry_t) &elems[e];
 	}
       else if (strcmp (tok, "hfind") == 0)
@@ -217,6 +220,7 @@ int main (void)
 	  n_ops++;
 	  LIB (ent = HT_FIND (ht, &elems[e], 0));
 	  if ((*ent == (hash_table_entry_t) &elems[e]) != was) mism_i ("find result", *ent == (hash_table_entry_t) &elems[e], was);
+	  if (!was && *ent != NULL) mism_i ("find: the entry returned for an absent element is not empty", 1, 0);
 	}
       else if (strcmp (tok, "hremove") == 0) { n_ops++; LIB (HT_REMOVE (ht, &elems[atoi (p)])); }
       else if (strcmp (tok, "hempty") == 0) { n_ops++; LIB (HT_EMPTY (ht)); }
